@@ -20,6 +20,7 @@ SPEC = {
 
 RECASE = {'currency', 'month', 'zone', 'conn', 'var'}
 AMTS = ['1', '5', '10', '12,5', '99', '250', '1000', '3', '42']
+SUFFIXED = ['2k', '1,5k', '3M', '250k', '10K']          # an amount with a magnitude suffix, followed by a blank and the currency
 
 
 def T(text, cls='fixed'):
@@ -66,6 +67,13 @@ def gen_base(rng, today_year):
     k = rng.randrange(16)
     a = rng.choice(AMTS)
     if k == 0:
+        if rng.random() < 0.3:
+            a = rng.choice(SUFFIXED)
+            form = rng.randrange(3)
+            if form == 0:
+                return [[T(a), T(rng.choice(codes), 'currency')]]
+            if form == 1:
+                return [[T(a), T(rng.choice(['$', '€', '₺']))]]
         return [[T(a), T(rng.choice(codes), 'currency'), T(rng.choice(['to', 'as', 'in', 'into']), 'conn'), T(rng.choice(codes), 'currency')]]
     if k == 1:
         line = [T(str(rng.randint(1, 28))), T(rng.choice(months), 'month'), T(str(rng.choice([2019, 2020, 2021, 2024, 1999])))]
@@ -82,7 +90,7 @@ def gen_base(rng, today_year):
         return [line]
     if k == 4:
         w = rng.choice(['of', 'on', 'off'])
-        x = [T(a)] if rng.random() < 0.5 else [T(a), T(rng.choice(codes), 'currency')]
+        x = [T(a)] if rng.random() < 0.5 else [T(a if rng.random() < 0.7 else rng.choice(SUFFIXED)), T(rng.choice(codes), 'currency')]
         p = [T('%d%%' % rng.randint(1, 150))]
         return [(p + [T(w, 'conn')] + x) if rng.random() < 0.5 else (x + [T(w, 'conn')] + p)]
     if k == 5:
